@@ -92,7 +92,10 @@ def tlc_jobs(structs, quick, seed, order_structs=(), conf_struct=None, csels=Non
 def run_job(job):
     name, st, kind, a = job
     workers = 1 if kind in ('walks', 'order', 'confobj') or st.nconf <= 6 else 3
-    return tlc.run('CatalogGen', a['cfg'], extra_modules=a['mods'], workers=workers, timeout=1500, heap='2g', **a['kw'])
+    # dozens of SHORT runs side by side: the optimising JIT tier and the parallel collector cost more CPU than
+    # they save (a 204-state run: 11.6 s CPU by default, 3 s with these options)
+    env = {'JAVA_TOOL_OPTIONS': '-XX:TieredStopAtLevel=1 -XX:ParallelGCThreads=1'} if st.nconf <= 24 else None
+    return tlc.run('CatalogGen', a['cfg'], extra_modules=a['mods'], workers=workers, timeout=1500, heap='2g', env=env, **a['kw'])
 
 
 def body(chk: check.Check):
@@ -112,7 +115,7 @@ def body(chk: check.Check):
     t_ = time.time()
     jobs = tlc_jobs(structs, quick, chk.seed, order_structs, conf_struct, csels)
     jobs.sort(key=lambda j: -j[1].nconf)  # the big ones first
-    with ThreadPoolExecutor(max_workers=10) as pool:
+    with ThreadPoolExecutor(max_workers=12) as pool:
         results = list(pool.map(run_job, jobs))
     tm['tlc'] = round(time.time() - t_, 1)
     import resource
@@ -372,7 +375,7 @@ def new_part_controls(chk, st, tab, tables, bpaths, conf_struct, csels, clist, o
 
         Configuration.selections = property(Configuration.selections.fget, setter)
 
-    status, val = rt.forked(catreplay.replay_confobj, (conf_struct, csels, clist[:400], 0, stale_patch))
+    status, val = rt.forked(catreplay.replay_confobj, (conf_struct, csels, clist[:200], 0, stale_patch))
     chk.control('(a) Configuration.selections setter patched not to refresh the stored identifier',
                 _reported(status, val, 'confobj:str') and _reported(status, val, 'confobj:equality'), _note(status, val))
 
@@ -398,7 +401,7 @@ def new_part_controls(chk, st, tab, tables, bpaths, conf_struct, csels, clist, o
 
         CentralController.set_configuration = cached
 
-    status, val = rt.forked(catreplay.replay_paths, (st, tab, bl[:600], 0, 0, cache_patch, 1))
+    status, val = rt.forked(catreplay.replay_paths, (st, tab, bl[:250], 0, 0, cache_patch, 1))
     chk.control('(b) CentralController.set_configuration patched to skip a configuration it applied last (blind to individual moves)',
                 _reported(status, val, 'state:setconf') and _reported(status, val, 'operator:'), _note(status, val))
 
